@@ -206,6 +206,15 @@ fn main() {
                 let was_current = before.is_some() && before == exp;
                 let mut c = match mode {
                     "dir" => Compile::directory(dir.join("src")),
+                    // the grammar's directory reached through a symbolic link inside the compiled tree
+                    "dirlink" => {
+                        let top = dir.join("top");
+                        if !top.exists() {
+                            std::fs::create_dir_all(&top).unwrap();
+                            std::os::unix::fs::symlink(dir.join("src"), top.join("sub")).unwrap();
+                        }
+                        Compile::directory(top)
+                    }
                     "dest" => Compile::file(&src_path).destination(&dest_path),
                     _ => Compile::file(&src_path),
                 };
